@@ -488,31 +488,42 @@ class GraphQLSchema:
     def _validate_field_type_is_same_as_interface_type(
         self, field_type, interface_field_type
     ) -> bool:
-        # If they are the same simple type
-        if field_type == interface_field_type:
-            return True
-
-        # If field_type is a nonnull variant of interface_type then it's ok
+        # A non-null field type is valid if its nullable type is a valid
+        # implementation of the (nullable) interface field type
         if isinstance(field_type, GraphQLNonNull):
             return self._validate_field_type_is_same_as_interface_type(
-                field_type.gql_type, interface_field_type
+                field_type.gql_type,
+                interface_field_type.gql_type
+                if isinstance(interface_field_type, GraphQLNonNull)
+                else interface_field_type,
             )
 
         # If interface says !Null but field is not non null
         if isinstance(interface_field_type, GraphQLNonNull):
             return False
 
-        # If interface says list but field is not the same list
-        # because firt the == condition is false (or else we wouldn't be here)
-        # and field_type isn't a non_null of interface type
-        # then if interface is a list, they aren't the same type
-        if isinstance(interface_field_type, GraphQLList):
+        # Lists are covariant on their item type
+        if isinstance(field_type, GraphQLList) or isinstance(
+            interface_field_type, GraphQLList
+        ):
+            if isinstance(field_type, GraphQLList) and isinstance(
+                interface_field_type, GraphQLList
+            ):
+                return self._validate_field_type_is_same_as_interface_type(
+                    field_type.gql_type, interface_field_type.gql_type
+                )
             return False
 
-        # Then, look at the possible type for the interface
-        interface = self.type_definitions[interface_field_type]
-        if isinstance(interface, GraphQLInterfaceType):
-            return interface.is_possible_type(field_type)
+        # If they are the same simple type
+        if field_type == interface_field_type:
+            return True
+
+        # Then, look at the possible types of the abstract type
+        abstract_type = self.type_definitions.get(interface_field_type)
+        if isinstance(
+            abstract_type, (GraphQLInterfaceType, GraphQLUnionType)
+        ):
+            return str(field_type) in abstract_type.possible_types_set
         return False
 
     def _validate_field_follow_interface(
